@@ -64,6 +64,8 @@ C04Clauses ==
               \A n \in DOMAIN K : ~IsNorm(n) => (n \in DOMAIN Ev.kept /\ Ev.kept[n] = K[n]))
      /\ Check("an unchanged architecture computes exactly the same function", (Ev.post = Ev.pre) => Ev.ob.samefn)
      /\ Check("the clone reproduces the outputs bit-exactly", Ev.ob.clone)
+     /\ Check("normalisation weights whose shape did not change keep their values",
+              \A n \in DOMAIN K : (IsNorm(n) /\ Shapes(C, Ev.pre)[n] = Shapes(C, Ev.post)[n]) => (n \in DOMAIN Ev.kept /\ Ev.kept[n] = K[n]))
      /\ Check("every surviving normalisation weight keeps its value on the common index range",
               \A n \in DOMAIN K : IsNorm(n) => (n \in DOMAIN Ev.kept /\ Ev.kept[n] = K[n]))
 
